@@ -17,7 +17,12 @@ package main
 //     hook); pair toggles through the proposal handler; ICS-20 receive / acknowledgement /
 //     timeout by calling the application's real transfer stack (erc20 middleware -> packet
 //     forward middleware -> transfer module) taken from the IBC router with crafted packets, on
-//     a cached context written only when core IBC would write it;
+//     a cached context written only when core IBC would write it - for coin-origin pairs with
+//     the voucher denomination ibc/<hash>, for ERC20-origin pairs with the pair's own (native)
+//     denomination erc20/<address>, whose coins in flight sit in the ICS-20 channel escrow
+//     account (put there by the environment step ibc_out, the escrow half of MsgTransfer);
+//   * approve(spender, n) by a holder as a real Ethereum transaction (the hook sees the
+//     Approval log);
 //   * after every step the projection reads bank supply and balances, totalSupply(),
 //     balanceOf() and allowance(module, thief) by real EVM calls, and the pair registry.
 
@@ -398,7 +403,9 @@ func (e *epEnv) project() M {
 	supply := app.BankKeeper.GetSupply(ctx, e.denom).Amount.BigInt()
 	escrow := app.BankKeeper.GetBalance(ctx, authtypes.NewModuleAddress(erc20types.ModuleName), e.denom).Amount.BigInt()
 	coinBal := M{}
+	ibcEscrow := app.BankKeeper.GetBalance(ctx, e.chanEscrow(), e.denom).Amount.BigInt()
 	coinOther := new(big.Int).Sub(supply, escrow)
+	coinOther.Sub(coinOther, ibcEscrow)
 	for _, a := range e.accts {
 		b := app.BankKeeper.GetBalance(ctx, e.keys[a].Addr, e.denom).Amount.BigInt()
 		coinBal[a] = b.String()
@@ -427,8 +434,13 @@ func (e *epEnv) project() M {
 		}
 	}
 	return M{"kind": e.cfg.Kind, "behaviour": e.cfg.Behaviour, "registered": registered, "enabled": enabled, "alive": alive,
-		"escrowCoins": escrow.String(), "coinSupply": supply.String(), "coinBal": coinBal, "coinOther": coinOther.String(),
+		"escrowCoins": escrow.String(), "coinSupply": supply.String(), "coinBal": coinBal, "ibcEscrow": ibcEscrow.String(), "coinOther": coinOther.String(),
 		"tokenSupply": epStr(ts), "tokenBal": tokenBal, "tokenOther": tokenOther.String(), "allowMT": epStr(allow)}
+}
+
+// chanEscrow is the ICS-20 escrow account of our side of the channel every packet uses.
+func (e *epEnv) chanEscrow() sdk.AccAddress {
+	return transfertypes.GetEscrowAddress(transfertypes.PortID, epChannel)
 }
 
 func (e *epEnv) exec(msg sdk.Msg) (bool, string) {
@@ -472,6 +484,25 @@ func (e *epEnv) step(st epStep) (ok bool, es string) {
 			return false, err.Error()
 		}
 		return e.ethTx(arg("from"), &e.contract, data, 2_000_000)
+	case "evm_approve":
+		data, err := e.abi.Pack("approve", e.eth(arg("spender")), mustBig(arg("amt")))
+		if err != nil {
+			return false, err.Error()
+		}
+		return e.ethTx(arg("from"), &e.contract, data, 1_000_000)
+	case "ibc_out":
+		// environment step: the escrow half of an outgoing ICS-20 transfer of the pair's own
+		// (native) denomination - sendTransfer's escrowToken: coins to the channel escrow account,
+		// total escrow tracked.  (No channel exists here, MsgTransfer itself cannot be sent.)
+		cctx, write := e.ctx().CacheContext()
+		coin := sdk.NewCoin(e.denom, amt("amt"))
+		if err := e.n.App.BankKeeper.SendCoins(cctx, e.acc(arg("from")), e.chanEscrow(), sdk.NewCoins(coin)); err != nil {
+			return false, epShort(err.Error())
+		}
+		tk := e.n.App.TransferKeeper
+		tk.SetTotalEscrowForDenom(cctx, tk.GetTotalEscrowForDenom(cctx, e.denom).Add(coin))
+		write()
+		return true, ""
 	case "holder_burn":
 		data, err := e.abi.Pack("burn", mustBig(arg("amt")))
 		if err != nil {
@@ -503,8 +534,14 @@ func (e *epEnv) step(st epStep) (ok bool, es string) {
 		}
 		return true, ""
 	case "ibc_recv":
-		// the counterparty sent its native denom over its channel-0 to our channel-0
-		data := transfertypes.NewFungibleTokenPacketData(epBaseDenom, arg("amt"), e.foreignAddr("sender"), e.acc(arg("to")).String(), "")
+		// coin origin: the counterparty sent its native denom over its channel-0 to our channel-0
+		// (a voucher is minted); ERC20 origin: the pair's coins come back (prefixed with the
+		// counterparty's port/channel) and are released from our channel escrow
+		raw := epBaseDenom
+		if e.cfg.Kind == "erc20" {
+			raw = "transfer/" + epChannel + "/" + e.denom
+		}
+		data := transfertypes.NewFungibleTokenPacketData(raw, arg("amt"), e.foreignAddr("sender"), e.acc(arg("to")).String(), "")
 		pkt := e.packet(data, epChannel, epChannel)
 		// core IBC (04-channel RecvPacket handler): the callback runs on a cached context that is
 		// written only for a successful (or asynchronous) acknowledgement
@@ -516,13 +553,18 @@ func (e *epEnv) step(st epStep) (ok bool, es string) {
 		}
 		return false, epShort(string(ack.Acknowledgement()))
 	case "ibc_ack", "ibc_timeout":
-		// a packet we sent earlier: the voucher (burned on send) of `from`, over our channel-0
+		// a packet we sent earlier over our channel-0: the voucher of `from` (burned on send,
+		// minted back) or, ERC20 origin, the pair's own coins (escrowed on send, released)
 		refund := arg("refund")
 		amount := refund
 		if refund == "0" {
 			amount = "1" // successful acknowledgement: nothing is refunded
 		}
-		data := transfertypes.NewFungibleTokenPacketData("transfer/"+epChannel+"/"+epBaseDenom, amount, e.acc(arg("from")).String(), e.foreignAddr("receiver"), "")
+		raw := "transfer/" + epChannel + "/" + epBaseDenom
+		if e.cfg.Kind == "erc20" {
+			raw = e.denom
+		}
+		data := transfertypes.NewFungibleTokenPacketData(raw, amount, e.acc(arg("from")).String(), e.foreignAddr("receiver"), "")
 		pkt := e.packet(data, epChannel, "channel-7")
 		cctx, write := e.ctx().CacheContext()
 		var err error
@@ -696,23 +738,41 @@ func epMain(args []string) error {
 				f := pickAcct()
 				w := new(big.Int).Add(mustBig(coinBal[f].(string)), mustBig(tokenBal[f].(string)))
 				st = epStep{"bank_send", M{"from": f, "to": pickAcct(), "amt": pickAmt(w.String())}}
-			case k < 16 && cfg.Kind == "coin":
-				switch r.Intn(3) {
-				case 0:
-					st = epStep{"ibc_recv", M{"to": pickAcct(), "amt": pickAmt(cfg.InitBal)}}
-				case 1:
+			case k < 16 && (cfg.Kind == "coin" || r.Intn(3) != 0):
+				// the amount an IBC callback brings in: any for vouchers, mostly covered by the
+				// coins in flight for an ERC20-origin pair
+				inAmt := func() string {
+					if cfg.Kind == "erc20" {
+						return pickAmt(post["ibcEscrow"].(string))
+					}
+					return pickAmt(cfg.InitBal)
+				}
+				switch n := r.Intn(4); {
+				case cfg.Kind == "erc20" && (n == 3 || post["ibcEscrow"].(string) == "0"):
+					f := rich(coinBal)
+					st = epStep{"ibc_out", M{"from": f, "amt": pickAmt(coinBal[f].(string))}}
+				case n == 0:
+					st = epStep{"ibc_recv", M{"to": pickAcct(), "amt": inAmt()}}
+				case n == 1:
 					ref := "0"
 					if r.Intn(3) != 0 {
-						ref = pickAmt(cfg.InitBal)
+						ref = inAmt()
 					}
 					st = epStep{"ibc_ack", M{"from": pickAcct(), "refund": ref}}
 				default:
-					st = epStep{"ibc_timeout", M{"from": pickAcct(), "refund": pickAmt(cfg.InitBal)}}
+					st = epStep{"ibc_timeout", M{"from": pickAcct(), "refund": inAmt()}}
 				}
-			case k < 16 && cfg.Kind == "erc20":
+			case k < 16:
 				st = epStep{"thief_drain", M{"amt": pickAmt(tokenBal[epModule].(string))}}
-			case k < 17:
+			case k < 17 && r.Intn(2) == 0:
 				st = epStep{"toggle", M{"pair": "p"}}
+			case k < 17:
+				f := pickAcct()
+				sp := epModule
+				if r.Intn(2) == 0 {
+					sp = pickAcct()
+				}
+				st = epStep{"evm_approve", M{"from": f, "spender": sp, "amt": pickAmt(tokenBal[f].(string))}}
 			case k < 18 && cfg.Behaviour == "selfDestructed" && post["alive"].(bool):
 				st = epStep{"destroy", M{"pair": "p"}}
 			default:
